@@ -3,6 +3,7 @@ package c14
 import (
 	"fmt"
 	"math/rand/v2"
+	"strconv"
 	"strings"
 )
 
@@ -225,11 +226,211 @@ func (c *Case) priorCall() string {
 	return "(ignore-errors " + v.call() + ")"
 }
 
+// dupPair renders the second, rightmost pair of the duplicated keyword: a
+// different in-range value, which the language ignores (ANSI 3.4.1.4: the
+// leftmost pair is used). "" when the keyword is absent or no other value fits.
+func (c *Case) dupPair(sName, eName string) string {
+	if c.Fn == "subseq" {
+		return ""
+	}
+	n := len(c.S1)
+	switch c.Dup {
+	case "start":
+		if c.Start == nil {
+			return ""
+		}
+		hi := n
+		if c.End != nil {
+			hi = *c.End
+		}
+		if *c.Start != 0 {
+			return sName + " 0"
+		}
+		if 0 < hi {
+			return sName + " 1"
+		}
+	case "end":
+		if c.End == nil {
+			return ""
+		}
+		if *c.End != n {
+			return eName + " " + strconv.Itoa(n)
+		}
+		lo := 0
+		if c.Start != nil {
+			lo = *c.Start
+		}
+		if lo < n {
+			return eName + " " + strconv.Itoa(n-1)
+		}
+	case "count":
+		if c.Count == nil {
+			return ""
+		}
+		if *c.Count <= 0 {
+			return ":count 2"
+		}
+		return ":count 0"
+	case "from-end":
+		switch c.FromEnd {
+		case "t":
+			return ":from-end nil"
+		case "nil":
+			return ":from-end t"
+		}
+	}
+	return ""
+}
+
+// setDup picks a keyword of the case to give twice.
+func setDup(r *rand.Rand, c *Case) {
+	var have []string
+	if c.Start != nil {
+		have = append(have, "start")
+	}
+	if c.End != nil {
+		have = append(have, "end")
+	}
+	if c.Count != nil {
+		have = append(have, "count")
+	}
+	if c.FromEnd != "" {
+		have = append(have, "from-end")
+	}
+	k := r.IntN(4)
+	if 0 < len(have) && c.Fn != "subseq" {
+		c.Dup = have[k%len(have)]
+	}
+}
+
+// s2AsFillPointerVector makes sequence-2 a vector with a fill pointer where
+// the function takes any sequence there.
+func s2AsFillPointerVector(c *Case) {
+	if c.T2 == "" || c.Same {
+		return
+	}
+	sp := specByName[c.Fn]
+	switch sp.fam {
+	case "two", "replace", "quant", "merge", "concat":
+	case "map":
+		if c.Fn != "map" {
+			return
+		}
+	default:
+		return
+	}
+	if c.Fn == "search" && c.T1 != "list" && c.T1 != "vector" {
+		return // search between a string or octets and a vector: listed findings
+	}
+	c.T2, c.Route2 = "vector", "fp"
+}
+
+// unicodeVariant swaps two of the four characters for characters whose UTF-8
+// encoding is longer than one byte (rune and byte indices differ).
+func unicodeVariant(c *Case) bool {
+	if c.T1 == "octets" || c.T2 == "octets" || c.T3 == "octets" || c.RT == "octets" {
+		return false
+	}
+	any := false
+	swap := func(ts []string) {
+		for i, t := range ts {
+			switch t {
+			case "#\\b":
+				ts[i], any = "#\\€", true
+			case "#\\c":
+				ts[i], any = "#\\§", true
+			}
+		}
+	}
+	swap(c.S1)
+	swap(c.S2)
+	swap(c.S3)
+	one := func(p *string) {
+		t := []string{*p}
+		swap(t)
+		*p = t[0]
+	}
+	one(&c.Item)
+	one(&c.New)
+	one(&c.Init)
+	return any
+}
+
+func (c *Case) flavourSeen() string {
+	for _, ts := range [][]string{c.S1, c.S2, c.S3} {
+		for _, t := range ts {
+			switch {
+			case t == "#\\€" || t == "#\\§":
+				return "multibyte-char"
+			}
+		}
+	}
+	for _, ts := range [][]string{c.S1, c.S2, c.S3} {
+		for _, t := range ts {
+			switch {
+			case strings.HasPrefix(t, "#\\"):
+				return "char"
+			case strings.HasPrefix(t, "("):
+				return "cons"
+			case t == "nil":
+				return "symbol-with-nil"
+			}
+			if _, err := strconv.Atoi(t); err == nil {
+				if c.T1 == "bit-vector" {
+					return "bit"
+				}
+				return "integer"
+			}
+			return "symbol"
+		}
+	}
+	return "none(empty)"
+}
+
+// crossKey: sequence type x keyword classes, to show the interactions met.
+func (c *Case) crossKey() string {
+	t := c.T1
+	if t == "" {
+		t = "-"
+	}
+	var n []string
+	for _, k := range strings.Split(c.kwNames(), "+") {
+		switch k {
+		case "bounds", "count", "from-end", "key", "test":
+			n = append(n, k)
+		}
+	}
+	if len(n) == 0 {
+		return t + ":none"
+	}
+	return t + ":" + strings.Join(n, "+")
+}
+
+func (c *Case) countClass() string {
+	switch n := *c.Count; {
+	case n < 0:
+		return "negative"
+	case n == 0:
+		return "0"
+	case len(c.S1) < n:
+		return "above-length"
+	case n == len(c.S1):
+		return "length"
+	}
+	return "1..length-1"
+}
+
 // decorate draws, for a generated case, a route, sameness and a failed prior
 // call (seeded block).
 func decorate(r *rand.Rand, c *Case) {
 	sp := specByName[c.Fn]
-	a, b, d := r.IntN(4), r.IntN(8), r.IntN(8)
+	a, b, d, e, f := r.IntN(4), r.IntN(8), r.IntN(8), r.IntN(16), r.IntN(16)
+	if e == 0 {
+		setDup(r, c)
+	}
+	if f == 0 && b != 0 {
+		s2AsFillPointerVector(c)
+	}
 	if a == 0 && c.T1 != "" && !unsupported(c.Fn, c.T1) {
 		rs := routesFor(c.T1)
 		c.Route = rs[r.IntN(len(rs))]
@@ -263,7 +464,19 @@ type sameEntry struct {
 func buildRouteEntries(seqs [][]int, reps int) []routeEntry {
 	var out []routeEntry
 	for fi, ft := range fnTypes {
-		for _, rt := range routesFor(ft.typ) {
+		rts := append([]string{}, routesFor(ft.typ)...)
+		switch ft.sp.fam {
+		case "two", "replace", "quant", "merge", "concat":
+			rts = append(rts, "s2fp")
+		case "map":
+			if ft.sp.name == "map" {
+				rts = append(rts, "s2fp")
+			}
+		}
+		if (ft.sp.bnd || ft.sp.count || ft.sp.fromE) && ft.sp.fam != "subseq" {
+			rts = append(rts, "dupkw")
+		}
+		for _, rt := range rts {
 			for si := range seqs {
 				for rep := 0; rep < reps; rep++ {
 					out = append(out, routeEntry{ft: int16(fi), route: rt, seq: int16(si), rep: int8(rep)})
@@ -316,6 +529,12 @@ func (c *Case) decorSig() string {
 	s := ""
 	if c.Route != "" {
 		s += " route=" + c.Route
+	}
+	if c.Route2 != "" {
+		s += " route2=" + c.Route2
+	}
+	if c.Dup != "" {
+		s += " duplicate-keyword=" + c.Dup
 	}
 	if c.Same {
 		s += " same-object"
